@@ -175,14 +175,22 @@ def run(project: Project, rep, tier: str):
     else:
         rep.unmodelled("SW-PROJ", fi, cb["node"], f"cannot evaluate ({wit})")
     # ---- SW-AVG
+    ar0 = [ev for ev in I.log if ev["kind"] == "arange" and ev["fi"] is fi and not ev["integral"]]
     loops = [ev for ev in I.log if ev["kind"] == "loop" and ev["fi"] is fi and ev["loop_kind"] == "for"
-             and "carried" in ev and len(ev["carried"]) >= 2]
+             and "carried" in ev and len(ev["carried"]) >= (1 if ar0 else 2)]
     if not loops:
         rep.unmodelled("SW-AVG", fi, fi.node, "direction loop not found")
         return
     lp = loops[-1]
     M = sym.Sym("M")
-    if sym.equal(lp["space"].size, M):
+    ar = [ev for ev in I.log if ev["kind"] == "arange" and ev["fi"] is fi and not ev["integral"]]
+    if ar:
+        rep.refuted("SW-AVG", fi, ar[0]["node"],
+                    f"the directions come from np.arange({sym.show(ar[0]['lo'])}, {sym.show(ar[0]['hi'])}, {sym.show(ar[0]['step'])}) "
+                    f"with a non-integer step: its length is ceil((hi−lo)/step) evaluated in floating point, which is M+1 for "
+                    f"M = 49, 98, 103, 107, … — one direction is counted twice while each still weighs 1/M",
+                    failing_input="M=49: 50 directions, result 3.9% too high")
+    elif sym.equal(lp["space"].size, M):
         rep.discharged("SW-AVG", fi, lp["node"], "the loop makes exactly M trips", nontrivial=False)
     else:
         rep.refuted("SW-AVG", fi, lp["node"], f"the loop makes {sym.show(lp['space'].size)} trips instead of M")
@@ -229,7 +237,7 @@ def run(project: Project, rep, tier: str):
                             construct=f"{SW}: direction vector")
     if not found_acc:
         rep.unmodelled("SW-AVG", fi, lp["node"], "accumulation of the per-direction cost not recognised")
-    if not found_theta:
+    if not found_theta and not ar0:
         rep.refuted("SW-AVG", fi, lp["node"], "the angle does not advance inside the loop: all M directions coincide",
                     construct=f"{SW}: angle schedule")
     for rn, n in (("SW-DEG", 1), ("SW-SHIFT", 1), ("SW-PROJ", 1), ("SW-AUG", 2), ("SW-AVG", 4)):
